@@ -35,7 +35,8 @@ Definition pstmt_eqb (a b : pstmt) : bool :=
 Definition opstmt_eqb (a b : option pstmt) : bool :=
   match a, b with Some x, Some y => pstmt_eqb x y | None, None => true | _, _ => false end.
 
-(* bit 1: generated statement outside stmt_ok;  bit 2: model print <> real text;  bit 4: model parse <> real reader;
+(* SEffW (written "when true {...}", see Model/AnmlStmt.v) is outside stmt_ok on purpose: print and parse are compared.
+   bit 1: generated statement outside stmt_ok;  bit 2: model print <> real text;  bit 4: model parse <> real reader;
    bit 16: theorem instance violated (sanity). *)
 Definition scode (c : scase) : N :=
   let W := W_of (s_names c) in
@@ -45,7 +46,7 @@ Definition scode (c : scase) : N :=
   | None => b4
   | Some s =>
       let okf := stmt_ok R (arity_of (s_names c)) s in
-      ((if okf then 0 else 1)
+      ((if okf || match s with SEffW _ _ => true | _ => false end then 0 else 1)
        + (if toks_eqb (pr_stmt W s) (s_toks c) then 0 else 2)
        + b4
        + (if okf && negb (opstmt_eqb (parse_stmt R (pr_stmt W s)) (Some (norm_stmt s))) then 16 else 0))%N
